@@ -432,3 +432,53 @@ func Baseline(op *spec.Op) spec.Args {
 	}
 	return a
 }
+
+// BaselineReply returns all-distinct, in-domain, byte-asymmetric values for the reply fields of op.
+func BaselineReply(op *spec.Op) spec.Args {
+	a := spec.Args{}
+	for i, f := range op.Reply {
+		n := i + 1
+		switch f.Enc {
+		case spec.U8:
+			a[f.Name] = uint8(0x21 + 5*n)
+		case spec.U32:
+			a[f.Name] = uint32(0x0a0b0c0d) + uint32(n)*0x01030507
+		case spec.Bool:
+			a[f.Name] = n%2 == 1
+		case spec.IPv4:
+			a[f.Name] = [4]byte{byte(192 - n), byte(168 + n), byte(n), byte(100 + n)}
+		case spec.AddrPort:
+			a[f.Name] = spec.AP{IP: [4]byte{10, 11, 12, 13}, Port: 0xea61}
+		case spec.MAC:
+			a[f.Name] = [6]byte{0x00, 0x12, 0x23, 0x34, 0x45, 0x56}
+		case spec.Version:
+			a[f.Name] = uint16(0x0892)
+		case spec.Date:
+			a[f.Name] = spec.Civil{Y: 2018 + n, M: 1 + (n*5)%12, D: 10 + n}
+		case spec.DateTime:
+			a[f.Name] = spec.CivilDT{Y: 2023, M: 5, D: 17, H: 14, Mi: 35, S: 52}
+		case spec.SysDate:
+			a[f.Name] = spec.Civil{Y: 24, M: 8, D: 9}
+		case spec.SysTime:
+			a[f.Name] = spec.HMS{H: 13, M: 47, S: 29}
+		case spec.HHmm:
+			a[f.Name] = spec.HM{H: (6 + n) % 24, M: (11 + 7*n) % 60}
+		case spec.PIN:
+			a[f.Name] = uint32(0x0735b1)
+		}
+	}
+	return a
+}
+
+// EchoArgs returns request arguments consistent with a reply built from vals (echoed card number
+// and profile id), on top of the operation's baseline.
+func EchoArgs(op *spec.Op, vals spec.Args) spec.Args {
+	a := Baseline(op)
+	switch op.Name {
+	case "GetCardByID":
+		a["CardNumber"] = vals["CardNumber"]
+	case "GetTimeProfile":
+		a["ProfileID"] = vals["ProfileID"]
+	}
+	return a
+}
